@@ -22,7 +22,8 @@ class C13(Prop):
                 "NV.C13.buffer_writes_in_bounds", "NV.C13.space_rule_sufficient", "NV.C13.space_rule_numbers",
                 "NV.C13.input_never_overflows", "NV.C13.segmentation_independent",
                 "NV.C13.stored_text_is_stream_text", "NV.C13.negotiation_never_in_text", "NV.C13.editing_applied",
-                "NV.C13.ccByte_ok", "NV.C13.copyChars_append"]
+                "NV.C13.ccByte_ok", "NV.C13.copyChars_append", "NV.C13.getUserCommand_ok",
+                "NV.C13.framing_never_crashes"]
     witness_theorems = ["NV.C13.sb_terminator_overflows_exact_array", "NV.C13.ayt_returns_to_data",
                         "NV.C13.full_sb_payload_is_not_text", "NV.C13.ascii_spec_example"]
     consts = [
@@ -50,7 +51,7 @@ class C13(Prop):
     const_headers = ["src/comm.h", "lib/rc/rc.h", "lib/async/console_worker.h"]
     quick_n = 260
     thorough_n = 2600
-    search_n = 600
+    search_n = 120
     design_ref = "5/C13"
     technique = ("Lean 4 proof (buffer invariant, decoder/grammar simulation, induction over read/extract schedules) + "
                  "constants and the get_user_data space rule regenerated from the source + model/implementation "
